@@ -56,6 +56,7 @@ fn main() {
     "fmtprobe" => fmtprobe(),
     "gramprobe" => gramprobe(),
     "c10probe" => c10probe(),
+    "zooprobe" => { mech::install_quiet_panic_hook(); let h = std::thread::Builder::new().stack_size(256 << 20).spawn(|| { for i in 0..props::c19::ZOO.len() as u16 { for a in [0u32, 1] { let c = props::c19::Case { choices: vec![], mutate: false, n: 1, zoo: Some((i, a)) }; let p = props::c19::program(&c); let out = mech::Session::new().run(&p.source()); if !out.is_ok() { println!("#{} v{}: {}  <= {:?}", i, a, out.show(), p.source()); } } } }).unwrap(); h.join().unwrap(); }
     "docprobe" => docprobe(),
     "compileprobe" => compileprobe(),
     "fsmprobe" => fsmprobe(),
